@@ -226,8 +226,11 @@ def run_job(job, io):
                 elif route == 'ctor_dict' and src is not None:
                     spec = optree.treespec_dict({'z': src.spec, 'a': src.spec}, none_is_leaf=src.spec.none_is_leaf, namespace=ns)
                 elif route == 'from_collection' and src is not None:
-                    col = [src.spec, {'k': src.spec}, deque([src.spec])]
+                    col = [src.spec, {'z': src.spec, 'k': src.spec}, deque([src.spec], maxlen=2)]
                     spec = optree.treespec_from_collection(col, none_is_leaf=src.spec.none_is_leaf, namespace=ns)
+                    if len(col) != 3 or col[0] is not src.spec or list(col[1]) != ['z', 'k'] or col[1]['k'] is not src.spec or \
+                            list(col[2]) != [src.spec] or col[2].maxlen != 2:
+                        viol('input-mutated', site, 'treespec_from_collection changed the collection it was given: %r' % (col,))
                     col[1]['k'] = None
                     col.clear()
                 else:
